@@ -86,28 +86,18 @@ def specIsDefault : Val → Bool
 
 mutual
 def specJson (S : Schema) (E : Enums) : Val → JVal
-  | .msg c slots _ _ cur => .obj (specKeys S E (fieldsOf S c) cur 0 slots) (specVals S E (fieldsOf S c) cur 0 slots)
+  | .msg c slots _ _ cur => mkObj (specKVs S E (fieldsOf S c) cur 0 slots)
   | v => .raw v
 
-def specKeys (S : Schema) (E : Enums) (fs : List FieldD) (cur : List (Option Nat)) : Nat → List Val → List JKey
+def specKVs (S : Schema) (E : Enums) (fs : List FieldD) (cur : List (Option Nat)) : Nat → List Val → List (JKey × JVal)
   | _, [] => []
   | idx, v :: vs =>
     match fs[idx]? with
     | Option.none => []
     | some f =>
       match specSlot S E f (hidden f idx cur) v with
-      | some _ => specKey f.name :: specKeys S E fs cur (idx + 1) vs
-      | Option.none => specKeys S E fs cur (idx + 1) vs
-
-def specVals (S : Schema) (E : Enums) (fs : List FieldD) (cur : List (Option Nat)) : Nat → List Val → List JVal
-  | _, [] => []
-  | idx, v :: vs =>
-    match fs[idx]? with
-    | Option.none => []
-    | some f =>
-      match specSlot S E f (hidden f idx cur) v with
-      | some j => j :: specVals S E fs cur (idx + 1) vs
-      | Option.none => specVals S E fs cur (idx + 1) vs
+      | some j => (specKey f.name, j) :: specKVs S E fs cur (idx + 1) vs
+      | Option.none => specKVs S E fs cur (idx + 1) vs
 
 /-- the JSON member of one field, `none` if the field is absent -/
 def specSlot (S : Schema) (E : Enums) (f : FieldD) (hid : Bool) : Val → Option JVal
@@ -126,7 +116,7 @@ def specSlot (S : Schema) (E : Enums) (f : FieldD) (hid : Bool) : Val → Option
   | .msg c slots ow unk cur =>
     if hid then Option.none
     else if f.group.isSome || f.optional || ow || !eqDefault S f.defKind (.msg c slots ow unk cur) then
-      some (.obj (specKeys S E (fieldsOf S c) cur 0 slots) (specVals S E (fieldsOf S c) cur 0 slots))
+      some (mkObj (specKVs S E (fieldsOf S c) cur 0 slots))
     else Option.none
   | v =>
     if hid then Option.none
@@ -140,14 +130,14 @@ def specList (S : Schema) (E : Enums) : List Val → List JVal
   | [] => []
   | x :: xs =>
     (match x with
-     | .msg c slots _ _ cur => JVal.obj (specKeys S E (fieldsOf S c) cur 0 slots) (specVals S E (fieldsOf S c) cur 0 slots)
+     | .msg c slots _ _ cur => mkObj (specKVs S E (fieldsOf S c) cur 0 slots)
      | x => JVal.raw x) :: specList S E xs
 
 def specMapVals (S : Schema) (E : Enums) (f : FieldD) : List Val → List JVal
   | [] => []
   | x :: xs =>
     (match x with
-     | .msg c slots _ _ cur => JVal.obj (specKeys S E (fieldsOf S c) cur 0 slots) (specVals S E (fieldsOf S c) cur 0 slots)
+     | .msg c slots _ _ cur => mkObj (specKVs S E (fieldsOf S c) cur 0 slots)
      | .ts us => JVal.tsStr us
      | .dur us => JVal.durStr us
      | x => JVal.raw x) :: specMapVals S E f xs
